@@ -22,7 +22,14 @@ def plan(tier, seed):
     # hold (a constant read from the module defaults instead of the configuration object shows only here)
     for j in range(3):
         specs.append({"name": f"beyond-defaults-{j}", "kind": "big", "beyond": j, "rounds": 0, "budget_s": 200})
+    from vlib import gen as _g
+    for j, sch_ in enumerate(_g.SCHEMES):
+        specs.append({"name": f"searched-from-threads-{_g.SHORT[sch_]}", "kind": "threads", "schemes": [sch_],
+                      "primitive_monitors": False, "rounds": 1 if tier == "quick" else 12, "seconds_per_scheme": 9,
+                      "budget_s": 300})
     for j in range(2 if tier == "quick" else 4):
+        specs.append({"name": f"long-keywords-{j}", "kind": "long_keywords", "index": j * 4,
+                      "budget_s": 12 if tier == "quick" else 200})
         specs.append({"name": f"feedback-keywords-{j}", "kind": "feedback", "index": j * 4,
                       "budget_s": 12 if tier == "quick" else 200})
         specs.append({"name": f"steered-values-{j}", "kind": "steered", "index": j * 3,
@@ -160,11 +167,18 @@ def run_shard(spec, acc, ctx):
         eng.run_steered(spec, acc, ctx, "present")
     elif spec.get("kind") == "feedback":
         eng.run_feedback(spec, acc, ctx, "present")
+    elif spec.get("kind") == "long_keywords":
+        eng.run_long_keywords(spec, acc, ctx, "present")
+    elif spec.get("kind") == "threads":
+        eng.run_threads(spec, acc, ctx, "present")
     else:
         eng.run(spec, acc, ctx, "present")
 
 
 def replay(case, acc, ctx):
+    if case.get("threads"):
+        acc.count("replayed")
+        return eng.run_threads({"schemes": [case["scheme"]], "rounds": 3, "seconds_per_scheme": 9}, acc, ctx, "present")
     if case.get("steered"):
         return eng.replay_steered(case, acc, ctx, "present")
     if "db" not in case and "lens" in case:
